@@ -35,6 +35,9 @@ type Obligation struct {
 	Trivial bool   `json:"trivial,omitempty"`
 	Config  string `json:"config,omitempty"`
 	Known   bool   `json:"known_finding,omitempty"`
+	// Hard: the violation does not depend on how the code expresses the check
+	// (e.g. the subject is never read on the offending path): never softened
+	Hard bool `json:"-"`
 }
 
 type Run struct {
@@ -90,7 +93,7 @@ func (r *Run) Add(o Obligation) {
 	// a violation reported on a function whose code uses constructs the evaluators do
 	// not model is recorded as "not decided" (with the construct named): the rule
 	// could not follow the code, which is not evidence that the code is wrong
-	if (o.Status == Violation || o.Status == Undecided && o.Func != "" && o.Func != "-" && !strings.HasSuffix(o.Key, ":anchor") && !strings.HasSuffix(o.Key, ":floor")) && r.Soften != nil {
+	if (o.Status == Violation || o.Status == Undecided && o.Func != "" && o.Func != "-" && !strings.HasSuffix(o.Key, ":anchor") && !strings.HasSuffix(o.Key, ":floor")) && r.Soften != nil && !o.Hard {
 		if why := r.Soften(o.Func, o.Rule); why != "" {
 			o.Status = Info
 			o.What = "not decided for this shape: " + o.What + " — " + why + " [the rule reported: " + o.Detail + "]"
